@@ -315,6 +315,13 @@ func c02OptCompare(c *Ctx, cases []*c02OptCase) {
 			c.Count("opt:unmodelled:" + oc.skip)
 			continue
 		}
+		if strings.Contains(f[2], "60.101.114.114.111.114.62") && !strings.Contains(oc.implRaw, "60.101.114.114.111.114.62") {
+			// a constant folded from the TEXT of an implementation-raised error (try … catch e -> e + 1): the model abstracts
+			// such texts as "<error>", so the two constants are not comparable
+			unmodelled++
+			c.Count("opt:unmodelled:error-text-abstracted")
+			continue
+		}
 		compared++
 		if oc.implOpt != oc.implRaw {
 			changedGo++
